@@ -25,6 +25,10 @@ void splinetable<Alloc>::permuteDimensions(const std::vector<size_t>& permutatio
 		}
 	}
 	
+	//an empty table has no dimensions to permute (and no arrays to index)
+	if(ndim==0)
+		return;
+	
 	//Note that we use regular pointers because these allocations will be 'local'
 	//to this function.
 	std::unique_ptr<uint32_t[]> t_order(new uint32_t[ndim]);
